@@ -36,6 +36,11 @@ CLAIMED = {
    note="ReadFloat64's exclusivity rests on the assumed contract of internal/fp and is not included. Invariants of the literal machines are candidate atoms kept by Houdini and re-verified.",
    tech="contract-based deductive verification: quantified postconditions over wsrun/tokclass spec functions, cut-point VCs over go/ssa, z3/cvc5",
    ref="DESIGN.md section 6 (C13)"),
+ "C14": dict(
+   text="2-safety proof by self-composition on the real code: for skipValue, skipValueFast, handleArrayValues and handleObjectValues, two runs on the same input and the same (deterministic) handler but with arbitrary and different stack slices (length, capacity, contents) are related at every cut point by `all other cells equal and stackA[0..top) == stackB[0..top)`; every path of one run has a path of the other with the same control flow up to stack growth, the same handler calls with the same arguments, and the same (p, err) at every return. Handler calls havoc both stacks independently (re-entrant use of the very same Buffer) and happen only where top == 0 is an invariant. The five public wrappers return the same outcome for nil and non-nil Buffer.",
+   note="From 'each call's outcome is independent of the stack slice' to 'any history of calls on one Buffer' is the immediate induction M-history (a Buffer has no other state), not machine-checked. Handler determinism and callee determinism are assumptions.",
+   tech="contract-based deductive verification: relational (self-composition) cut-point VCs over go/ssa with inferred unary invariants, z3/cvc5",
+   ref="DESIGN.md section 6 (C14)"),
  "C16": dict(
    text="Proof of the frame and ownership parts that a per-call contract can express: (a) every store and every in-place append of every function under contract has a discharged obligation that its target is not an input region, and an SSA scan of every function in rjson and internal/fp shows no store into package-level memory; (b) ReadStringBytes, UnescapeStringContent, unescapeStringContent, appendRemainderOfString, unescapeUnicodeChar and growBytesSliceCapacity return, on success, a slice whose first len(dst) elements are the destination's prior contents (quantified postcondition, invariants at every machine cut point); (c) every returned string comes from a []byte->string conversion.",
    note="Not covered (stated in evidence.proved_subset): that the appended suffix equals the empty-destination output, scratch-content independence of ReadString's *buf, and value trees. Input and destination are assumed not to overlap.",
@@ -56,7 +61,7 @@ CLAIMED = {
 NOT_BUILT = "in reach per DESIGN.md section 6 but its check is not built yet - not claimed"
 NA = {
  "C03": NOT_BUILT, "C04": NOT_BUILT, "C06": NOT_BUILT, "C07": NOT_BUILT,
- "C08": NOT_BUILT, "C11": NOT_BUILT, "C14": NOT_BUILT, "C19": NOT_BUILT, "C20": NOT_BUILT,
+ "C08": NOT_BUILT, "C11": NOT_BUILT, "C19": NOT_BUILT, "C20": NOT_BUILT,
  "C15": "needs a full functional contract of generic decoding for arbitrary prior reader state (incl. what sync.Pool.Get may return) and ownership of maps/slices reachable through interface values; not expressible in a quantifier-free bit-vector/array VC generator without inductive datatypes or separation logic (DESIGN.md section 6, C15)",
  "C17": "the functional content is utf8.DecodeRune / string([]rune) / string(rune) runtime intrinsics whose semantics would have to be assumed in exactly the form of the property, and the statement is sequence-valued and, for the slice/map helpers, an induction over interface-typed trees; no contract within reach decides it (DESIGN.md section 6, C17)",
 }
